@@ -628,7 +628,7 @@ Qed.
 
 Lemma step_inv w e : Inv w -> Inv (step' w e).
 Proof.
-  intros HI. destruct e as [cp|c k|dt|i cfg|ci which bit|ci which n|ci|ci|ci x]; cbn [step].
+  intros HI. destruct e as [cp|c k|dt|i cfg|ci which bit|ci which n|ci|ci|ci x|ci]; cbn [step].
   - apply conn_step_inv. exact HI.
   - apply close_step_inv. exact HI.
   - constructor; cbn [w_fresh w_clients w_servers w_conns w_log w_issued w_now mk_world]; try apply HI.
@@ -676,6 +676,9 @@ Proof.
     + intros c t Ht. cbn [c_t10 c_t13 set_t10 set_t13] in Ht. left.
       apply in_app_or in Ht. destruct Ht as [Ht|Ht]; apply in_map_iff in Ht; destruct Ht as [t0 [<- A]];
         exists t0; (split; [apply in_or_app; auto|reflexivity]).
+  - apply on_client_inv; [| |exact HI].
+    + intros c. reflexivity.
+    + intros c t Ht. left. exists t. split; [exact Ht|reflexivity].
   - apply on_client_inv; [| |exact HI].
     + intros c. reflexivity.
     + intros c t Ht. left. exists t. split; [exact Ht|reflexivity].
